@@ -1090,9 +1090,13 @@ func (s *sharedEntryAttributes) ImportConfig(ctx context.Context, t importer.Imp
 			var exists bool
 			var actualEntry Entry = s
 			var keyChild Entry
+			// the key levels of the tree follow the sorted key names (see utils.ToStrings), not the order of the key statement
+			keyNames := make([]string, 0, len(s.schema.GetContainer().GetKeys()))
 			for _, keySchema := range s.schema.GetContainer().GetKeys() {
-
-				keyElemName := keySchema.Name
+				keyNames = append(keyNames, keySchema.Name)
+			}
+			slices.Sort(keyNames)
+			for _, keyElemName := range keyNames {
 
 				keyTransf := t.GetElement(keyElemName)
 				if keyTransf == nil {
